@@ -3,4 +3,4 @@ Require Extraction.
 Require Import ExtrOcamlBasic.
 From Verif Require Import Locks.Model.
 Extraction Language OCaml.
-Extraction "locks_model.ml" init step lock_keys_full drain run_nth run_some pending.
+Extraction "locks_model.ml" init step lock_keys_full drain run_nth run_some pending early_exists exit_agg.
